@@ -347,6 +347,9 @@ def c13(prop, tier, replay):
     rest = [bysum[d] for d in sorted(bysum, key=abs) if abs(d) > 64]
     pick += rest[:max(0, nheavy - len(pick))]
     log("[heavy payload sums relative to 2^32: %s]" % [payload_bytes(c) + 16 - (1 << 32) for c in pick])
+    # duration sums on the 32-bit boundaries at real width, every pair of timescales incl. those whose rescaled
+    # durations need more than 53 bits
+    cheap += duration_cases(rng, "wdur64")
     res = validate_sharded("Trace_Mux", cheap, wd, "wide", 6 if tier == "quick" else 14)
     res2 = validate_sharded("Trace_Mux", pick, wd, "heavy", 1, profile="release", timeout=3000)
     for k in ("fails",):
@@ -384,7 +387,9 @@ def duration_cases(rng, tag):
     pats = [[H - 1, H - 1], [H - 1, H], [H, H - 1, 0], [H, H], [U], [U, 1], [U - 1, 1], [U - 1, 2], [U, U], [H, H, 7], [U, U, 1, 1],
             [H - 1, H - 1, 1], [H - 1, H - 1, 1, 5], [1, U - 1, 3], [0, U, 0, 2]]
     for i, durs in enumerate(pats):
-        for tts, mts in ((1000, 1000), (90000, 1000), (1000, 90000), (U, 1), (1, U), (U, U - 1), (4000000000, 3000000000)):
+        # (the last three: media duration x movie timescale beyond 2^53, quotient beyond 2^53 -- not exact in a double)
+        for tts, mts in ((1000, 1000), (90000, 1000), (1000, 90000), (U, 1), (1, U), (U, U - 1), (4000000000, 3000000000),
+                         (3, U), (7, 4000000007), (44100, 1000000000)):
             kind = KINDS[(i + tts) % len(KINDS)]
             calls = [{"op": "add", "conf": full_conf(kind, tts, rng)}, {"op": "add", "conf": full_conf("aac", 48000, rng)}]
             for k, d in enumerate(durs):
@@ -440,7 +445,8 @@ def c14_cases(tier, rng):
         conf["sps"] = [0x67, 100, 0, 31] + [(i * 7) % 256 for i in range(spsn - 4)]
         conf["pps"] = [0x68] + [(i * 11) % 256 for i in range(ppsn - 1)]
         cases.append(cfg_case(n, [conf], rng)); n += 1
-    for brands in ([], ["isom"], ["isom", "iso2"], ["isom", "iso2", "avc1"], ["\x00\x00\x00\x00", "zzzz", "mp41", "dash"]):
+    for brands in ([], ["isom"], ["isom", "iso2"], ["isom", "iso2", "avc1"], ["\x00\x00\x00\x00", "zzzz", "mp41", "dash"],
+                   ["isom", "iso2", "iso2", "mp41"], ["mp42", "mp42"], ["dash", "isom", "dash", "dash", "dash"]):
         for minor in (0, 512, 0xFFFFFFFF):
             for mts in (1, 1000, 90000, 0xFFFFFFFF):
                 conf = full_conf(rng.choice(KINDS), rng.choice([1, 1000, 90000, 0xFFFFFFFF]), rng)
@@ -485,6 +491,10 @@ def c17_cases(tier, rng):
             for kind in KINDS:
                 c = full_conf(kind, tts, rng)
                 add([c], [w(1, dur=d) for d in rng.sample([0, 1, tts // 2, tts, U], 3)], movie_ts=mts)
+    # a chunk that stays open while the durations buffered in it sum past 2^32 - 1
+    for tts, durs in ((U, [1 << 31, 1 << 31, 1 << 31, 1]), (U, [U - 1, U - 1, 5]), (U - 1, [(1 << 31) - 1, 1 << 31, 3, U])):
+        for kind in ("avc", "aac"):
+            add([full_conf(kind, tts, rng)], [w(1, dur=d) for d in durs], movie_ts=1000)
     # parameter sets of every short length
     for sl in range(0, 7):
         for pl in (0, 1, 4):
@@ -789,7 +799,7 @@ def c12(prop, tier, replay):
         report_read(prop, tier, res, cases, [], t0, known, "model_checking", "replay", 2)
         return
     stats, cases = [], []
-    for b in ("plain", "plaineof", "plainurl", "frag", "fragmf", "fragemsg", "fragsplit", "meta"):
+    for b in ("plain", "plaineof", "plainurl", "frag", "fragmf", "fragboth", "fragemsg", "fragsplit", "meta"):
         if not os.path.exists(os.path.join(SPEC, "MC_Layout_%s1.cfg" % b)):
             continue
         st, mcs = gen_mc("MC_Layout", "MC_Layout_%s1" % b, wd, tier, coverage=False)
@@ -954,12 +964,36 @@ def c15(prop, tier, replay):
                 calls.append({"op": rng.choice(["read", "read", "offset", "count"]), "t": t,
                               "k": rng.choice([0, 1, n, n + 1, n + 2, rng.randint(0, n + 1)])})
             cases.append(dict(f, id="rnd-%d-%d" % (fi, r), prop="C15", calls=calls))
+    # two readers over different files with the same track and sample ids (the samples distributed
+    # differently over the fragments), used alternately on one thread: the other reader is asked first
+    def shape_key(c):
+        return (c["base"], c["durMode"], c["ctsMode"], c["tfdtV"], c["delivery"], c["mdatFirst"])
+    groups = {}
+    for c in fr:
+        if c["ntracks"] == 1 and c["delivery"] == "one":
+            groups.setdefault(shape_key(c), []).append(c)
+    npair = 0
+    for key in sorted(groups, key=str):
+        g = groups[key]
+        if len(g) < 2 or npair >= (12 if tier == "quick" else 200):
+            continue
+        for a in g:
+            for b in g:
+                if a is b or json.dumps(a["st"]) == json.dumps(b["st"]):
+                    continue
+                n = sum(max(0, tf[1]) for fg in a["st"] for tf in fg if tf[0] == 1)
+                calls = [{"op": op, "t": 1, "k": k} for k in range(0, n + 2) for op in ("read", "offset")]
+                cases.append({"file": a["file"], "expect_ok": True, "other": {"file": b["file"]}, "id": "two-%d" % npair, "prop": "C15", "calls": calls})
+                npair += 1
     res = validate_sharded("Trace_Read", cases, wd, "sched", 6 if tier == "quick" else 16, runner="read-run")
     # (3) determinism: muxing the same history twice, opening the same bytes twice (events `twice` of the mux suite)
     rp = os.path.join(wd, "random-cases.ndjson")
     nmux = 150 if tier == "quick" else 4000
     mp4v(["mux-gen", str(seed()), str(nmux), rp])
     mcases = read_ndjson(rp)
+    # two of the histories are muxed the second time in another second of the wall clock
+    for c in [c for c in mcases if c.get("twice", True)][:2]:
+        c["twice_gap_ms"] = 1100
     mres = validate_sharded("Trace_Mux", mcases, wd, "det", 6 if tier == "quick" else 16)
     mres["fails"] = [f for f in mres["fails"] if f["prop"] == "C15"]
     res["fails"] += mres["fails"]
@@ -1037,6 +1071,13 @@ def c11(prop, tier, replay):
     for dm in ("mixA", "mixB", "mixC"):
         files += [{"file": c["file"], "kind": "spec-rendered fragmented " + dm} for c in mx
                   if c["delivery"] == "one" and c["durMode"] == dm and c["base"] == "moof" and not c["mdatFirst"] and c["nfrag"] >= 2][:1 if tier == "quick" else 4]
+    # runs of unequal length whose total is a multiple of the number of fragments (3+1, 4+4+1): a prefix has
+    # another total and another number of fragments
+    for shape in ([[[1, 3]], [[1, 1]]], [[[1, 4]], [[1, 4]], [[1, 1]]]):
+        pick = [c for c in mx if c["st"] == [[list(tf) for tf in fg] for fg in shape] and c["delivery"] == "one" and c["base"] == "moof" and not c["mdatFirst"]]
+        if not pick:
+            raise ToolError("vacuity: no fragmented file with the runs %s" % shape)
+        files += [{"file": c["file"], "kind": "spec-rendered fragmented, unequal runs"} for c in pick[:1 if tier == "quick" else 6]]
     # movie header last and another table than the chunk offsets as the last box of the last track
     st, sw = gen_mc("MC_Layout", "MC_Layout_plainswap2", wd, tier, coverage=False)      # one track, every pair of swaps
     stats.append(st)
@@ -1129,8 +1170,15 @@ def c10(prop, tier, replay):
     for c in base:
         cases.append({"file": c["file"], "kind": "read spec-rendered"})
     cases.append({"file": canned("minimal.mp4"), "kind": "read canned minimal.mp4", "stride": 1 if tier == "thorough" else 3})
-    if tier == "thorough":
-        cases.append({"file": canned("extended_audio_object_type.mp4"), "kind": "read canned extended_audio_object_type.mp4"})
+    # an audio configuration with an escaped object type (a third configuration byte is read)
+    cases.append({"file": canned("extended_audio_object_type.mp4"), "kind": "read canned extended_audio_object_type.mp4"})
+    # ... and the same with a tabulated sampling frequency (index 3 instead of the 24-bit escape), two channels
+    ext = bytes(canned("extended_audio_object_type.mp4"))
+    i = ext.find(bytes([0x05, 0x81, 0x1a, 0xf8, 0x9e, 0x01]))
+    if i < 0:
+        raise ToolError("extended_audio_object_type.mp4: audio configuration not found")
+    cases.append({"file": list(ext[:i + 3] + bytes([0xf8, 0x86, 0x40]) + ext[i + 6:]),
+                  "kind": "read extended_audio_object_type.mp4, escaped object type with frequency index 3"})
     # muxing sessions
     rp = os.path.join(wd, "mux-cases.ndjson")
     mp4v(["mux-gen", str(seed()), str(40 if tier == "quick" else 400), rp])
@@ -1388,7 +1436,7 @@ def robust_suite(tier):
     with ThreadPoolExecutor(max_workers=12) as ex:
         rs = list(ex.map(lambda j: run_robust_base(j[0], j[1], wd, j[2]), jobs))
     # amplification family: T tracks whose parameter-set records all reach into one shared region
-    amps = ["90,30,hevc", "90,30,avc", "30,60,hevc", "12,254,avc", "40,300,esds", "100,64,esds", "40,300,esds4", "20000,400000,fragwalk", "100,6000,tracksmoofs"] + ["80,200,tbl-" + t for t in ("stss", "stts", "ctts", "stsc", "stco", "co64", "stsz")] + (["90,200,hevc", "90,200,avc", "90,2000,esds", "60000,600000,fragwalk"] if tier == "thorough" else [])
+    amps = ["90,30,hevc", "90,30,avc", "30,60,hevc", "12,254,avc", "40,300,esds", "100,64,esds", "40,300,esds4", "20000,400000,fragwalk", "100,6000,tracksmoofs", "2000,0,drefwalk"] + ["80,200,tbl-" + t for t in ("stss", "stts", "ctts", "stsc", "stco", "co64", "stsz")] + (["90,200,hevc", "90,200,avc", "90,2000,esds", "60000,600000,fragwalk"] if tier == "thorough" else [])
     rs += [run_amplify(a, wd, p) for p in ("debug", "release") for a in amps]
     res = {"stats": stats, "bases": [{"kind": b["kind"], "len": len(b["file"]), "fields": len(b["fields"]), "plan": {k: v for k, v in b["plan"].items()}} for b in bases],
            "executions": sum(x["cases"] for x in rs), "events": sum(x["events"] for x in rs), "fails": [], "wall": time.time() - t0}
